@@ -1,2 +1,10 @@
 #pragma once
 #include <stddef.h>
+#include <stdarg.h>
+typedef struct _IO_FILE FILE;
+extern FILE* stdout; extern FILE* stderr;
+int printf(const char* fmt, ...);
+int fprintf(FILE* f, const char* fmt, ...);
+int snprintf(char* b, size_t n, const char* fmt, ...);
+int sprintf(char* b, const char* fmt, ...);
+int puts(const char* s);
